@@ -6,6 +6,7 @@ import NurbsVerif.Lemmas.AssembleEnds
 import NurbsVerif.Lemmas.AssembleWF
 import NurbsVerif.Lemmas.LengthSamples
 import NurbsVerif.Lemmas.LengthEuclid
+import NurbsVerif.Lemmas.BasisPositiveHull
 
 /-!
 # C18  Shapes stay inside the hull of their control points
@@ -435,6 +436,71 @@ theorem volume_corners (pu pv pw d : ℕ) (Uu Uv Uw : List K) (su sv sw : ℕ) (
         (if ew then fnOf Uw sw else fnOf Uw pw)).getD j 0
       = (ptsGet P ((if ev then sv - 1 else 0) + sv * ((if eu then su - 1 else 0) + su * (if ew then sw - 1 else 0)))).getD j 0 :=
   volumePoint_corner pu pv pw _ _ _ su sv sw P d j hUu.knotsOk hUv.knotsOk hUw.knotsOk hcu hcv hcw hlen hP eu ev ew
+
+/-! ### the hull statements with the output of `operations.find_ctrlpts`
+
+`findCtrlptsCurve` / `findCtrlptsSurface` are the model functions the correspondence check of C20 runs
+against `operations.find_ctrlpts`; C20 proves that they return exactly the control points with a
+non-vanishing basis function (`C20.findCtrlpts_exact…`).  Here: those returned points are the ones the
+hull statements are about. -/
+
+/-- **Curves lie in the convex hull of the control points `find_ctrlpts` returns**: every `u` of the
+    closed domain, every linear functional `ℓ`: `ℓ` of the evaluated point lies between any bounds of
+    `ℓ` on the `p+1` entries of `find_ctrlpts(curve, u)`. -/
+theorem curve_in_hull_of_find_ctrlpts (p d : ℕ) (Ul : List K) (P : List (List K)) (hC : CurveWF p d Ul P) (u : K)
+    (h1 : fnOf Ul p ≤ u) (h2 : u ≤ fnOf Ul P.length) (A : ℕ → K) (lo hi : K)
+    (hlo : ∀ r, r ≤ p → lo ≤ ∑ l ∈ range d, A l * ((findCtrlptsCurve [] p (fnOf Ul) P u).getD r []).getD l 0)
+    (hhi : ∀ r, r ≤ p → ∑ l ∈ range d, A l * ((findCtrlptsCurve [] p (fnOf Ul) P u).getD r []).getD l 0 ≤ hi) :
+    (findCtrlptsCurve [] p (fnOf Ul) P u).length = p + 1 ∧
+    lo ≤ ∑ l ∈ range d, A l * (curvePoint p (fnOf Ul) P u).getD l 0 ∧
+      ∑ l ∈ range d, A l * (curvePoint p (fnOf Ul) P u).getD l 0 ≤ hi :=
+  ⟨findCtrlptsCurve_length [] p (fnOf Ul) P u,
+   curvePoint_in_hull_findCtrlpts p (fnOf Ul) P u d hC.knotsOk hC.net h1 h2 A lo hi hlo hhi⟩
+
+/-- **Strictly inside a span the point is strictly inside the hull of the returned points**: for `u`
+    in `[U_p, U_n)` and not at the left end of its span, the evaluated point is the combination of the
+    `p+1` control points `find_ctrlpts` returns with coefficients (the A2.2 values) that are ALL
+    positive and sum to one – none of the returned points is superfluous. -/
+theorem curve_point_positive_combination_of_find_ctrlpts (p d : ℕ) (Ul : List K) (P : List (List K))
+    (hC : CurveWF p d Ul P) (u : K) (h1 : fnOf Ul p ≤ u) (h2 : u < fnOf Ul P.length)
+    (hin : fnOf Ul (findSpanLinear p (fnOf Ul) P.length u) < u) :
+    (∀ r, r ≤ p → 0 < (basisFuns p (fnOf Ul) (findSpanLinear p (fnOf Ul) P.length u) u).getD r 0) ∧
+    ∑ r ∈ range (p+1), (basisFuns p (fnOf Ul) (findSpanLinear p (fnOf Ul) P.length u) u).getD r 0 = 1 ∧
+      ∀ j, (curvePoint p (fnOf Ul) P u).getD j 0
+        = ∑ r ∈ range (p+1), (basisFuns p (fnOf Ul) (findSpanLinear p (fnOf Ul) P.length u) u).getD r 0
+            * ((findCtrlptsCurve [] p (fnOf Ul) P u).getD r []).getD j 0 :=
+  curvePoint_pos_combination_findCtrlpts p (fnOf Ul) P u d hC.mono hC.pn hC.net h1 h2 hin
+
+/-- **`find_ctrlpts` returns exactly the active control points of a curve** (inside a span): the list
+    is the control polygon filtered by "Cox–de Boor function `N_{i,p}(u) ≠ 0`". -/
+theorem find_ctrlpts_returns_exactly_the_active_points (p d : ℕ) (Ul : List K) (P : List (List K))
+    (hC : CurveWF p d Ul P) (u : K) (h1 : fnOf Ul p ≤ u) (h2 : u < fnOf Ul P.length)
+    (hin : fnOf Ul (findSpanLinear p (fnOf Ul) P.length u) < u) :
+    findCtrlptsCurve [] p (fnOf Ul) P u
+      = ((List.range P.length).filter (fun i => decide (Blossom.cdb (fnOf Ul) p i u ≠ 0))).map (fun i => ptsGet P i) :=
+  findCtrlptsCurve_eq_filter [] p (fnOf Ul) P u hC.pn hC.mono h1 h2 hin
+
+/-- **Surfaces lie in the convex hull of the control points `find_ctrlpts` returns**; `P2` is the 2-D
+    view `ctrlpts2d` of the net (`P2[a][b]` = control point `b + size_v·a` of the flat list). -/
+theorem surface_in_hull_of_find_ctrlpts (d : ℕ) (S : Shape K) (hS : SurfWF d S) (P2 : List (List (List K)))
+    (hP2 : ∀ a b, a < S.size 0 → b < S.size 1 → (P2.getD a []).getD b [] = ptsGet S.net (b + S.size 1 * a)) (u v : K)
+    (hu1 : fnOf (S.kv 0) (S.deg 0) ≤ u) (hu2 : u ≤ fnOf (S.kv 0) (S.size 0))
+    (hv1 : fnOf (S.kv 1) (S.deg 1) ≤ v) (hv2 : v ≤ fnOf (S.kv 1) (S.size 1)) (A : ℕ → K) (lo hi : K)
+    (hlo : ∀ a b, a ≤ S.deg 0 → b ≤ S.deg 1 → lo ≤ ∑ l ∈ range d, A l *
+      (((findCtrlptsSurface [] (S.deg 0) (S.deg 1) (fnOf (S.kv 0)) (fnOf (S.kv 1)) (S.size 0) (S.size 1) P2 u v).getD a []).getD b []).getD l 0)
+    (hhi : ∀ a b, a ≤ S.deg 0 → b ≤ S.deg 1 → ∑ l ∈ range d, A l *
+      (((findCtrlptsSurface [] (S.deg 0) (S.deg 1) (fnOf (S.kv 0)) (fnOf (S.kv 1)) (S.size 0) (S.size 1) P2 u v).getD a []).getD b []).getD l 0 ≤ hi) :
+    lo ≤ ∑ l ∈ range d, A l * (surfEval S u v).getD l 0 ∧ ∑ l ∈ range d, A l * (surfEval S u v).getD l 0 ≤ hi :=
+  surfacePoint_in_hull_findCtrlpts _ _ _ _ _ _ S.net P2 u v d hS.dir0.knotsOk hS.dir1.knotsOk hS.netlen hS.net hP2
+    hu1 hu2 hv1 hv2 A lo hi hlo hhi
+
+/-- non-vacuity: quadratic curve, `u = 3/4` strictly inside span 3 – `find_ctrlpts` returns the last
+    three control points, their coefficients `1/8, 5/8, 1/4` are positive; at the knot `u = 1/2` the
+    returned list is the same superset `P_1, P_2, P_3` but the last coefficient is `0` -/
+example : let U := fnOf ([0,0,0,1/2,1,1,1] : List ℚ); let P : List (List ℚ) := [[0,0],[1,2],[2,0],[3,1]]
+    (U 2 ≤ 3/4 ∧ (3/4 : ℚ) < U 4 ∧ U (findSpanLinear 2 U 4 (3/4)) < 3/4) ∧
+    findCtrlptsCurve [] 2 U P (3/4) = [[1,2],[2,0],[3,1]] ∧ basisFuns 2 U 3 (3/4) = [1/8, 5/8, 1/4] ∧
+    findCtrlptsCurve [] 2 U P (1/2) = [[1,2],[2,0],[3,1]] ∧ basisFuns 2 U 3 (1/2) = [1/2, 1/2, 0] := by decide +kernel
 
 /-! ### non-vacuity of the end-to-end hypotheses -/
 
